@@ -187,5 +187,17 @@ def ext_binnify(case, ctx):
     cli_rows, relids = _parse_bed(text, header=case.get("header", False))
     pcs, pb = parse_bins(f"{csfile}:{b}")
     parsed = [[NAMES.index(str(ch)), int(s), int(e)] for ch, s, e in zip(pb["chrom"], pb["start"], pb["end"])]
+    # the file `cooler makebins` wrote (chrom, start, end and a fourth column of relative IDs), given as the BINS argument
+    parsed_bed, parsed_bed_lens = parsed, [int(x) for x in pcs.values]
+    if not case.get("header"):
+        bed = os.path.join(d, "made.bins.bed")
+        with open(bed, "w") as f:
+            f.write(text)
+        try:
+            pcs2, pb2 = parse_bins(bed)
+            parsed_bed = [[NAMES.index(str(ch)) if str(ch) in NAMES else -1, int(s), int(e)] for ch, s, e in zip(pb2["chrom"], pb2["start"], pb2["end"])]
+            parsed_bed_lens = [int(x) for x in pcs2.values]
+        except Exception:
+            parsed_bed, parsed_bed_lens = [], []
     return {"table": table, "cli": cli_rows, "relids": relids, "parsed": parsed,
-            "parsed_lens": [int(x) for x in pcs.values]}
+            "parsed_lens": [int(x) for x in pcs.values], "parsed_bed": parsed_bed, "parsed_bed_lens": parsed_bed_lens}
